@@ -178,6 +178,11 @@ where
             }
         }
     }
+    // an actual history of this run as evidence sample (which one rotates with VERIF_SEED)
+    if !histories.is_empty() {
+        let k = (histories.len() / 2 + rep.seed as usize * 7919) % histories.len();
+        rep.sample(serde_json::json!({"check":tag,"config":cfg.json(),"history":histories[k].iter().map(|a| alphabet[*a].json(lists)).collect::<Vec<_>>(),"verdict":"held"}));
+    }
     let st = *steps.lock().unwrap();
     HistStats { histories: histories.len() as u64, steps: st }
 }
